@@ -179,34 +179,30 @@ func sectionOf(sizes []int, ws, es, p int) string {
 	return "trailer"
 }
 
-// headerPart names the header write by what it carries (for violation keys).
-func locationName(sect string, base []byte, off, l int) string {
-	if sect != "header" {
+// locationOf names the place of write p for violation keys: the section, and
+// for header writes the keyword of the header line in which the write begins.
+// header = the bytes of the fault-free output before the weight section.
+func locationOf(sizes []int, ws, es int, header string, p int) string {
+	sect := sectionOf(sizes, ws, es, p)
+	if sect != "header" && sect != "header+weights" {
 		return sect
 	}
-	s := string(base[off : off+l])
-	for _, k := range []string{"DIMENSION", "TYPE: TSP", "EDGE_WEIGHT_SECTION"} {
-		if len(s) >= len(k) && containsStr(s, k) {
-			switch k {
-			case "TYPE: TSP":
-				return "header:TYPE"
-			case "DIMENSION":
-				return "header:DIMENSION"
-			default:
-				return "header:EDGE_WEIGHT_SECTION"
-			}
-		}
+	off := 0
+	for k := 0; k < p; k++ {
+		off += sizes[k]
 	}
-	return "header"
-}
-
-func containsStr(s, sub string) bool {
-	for i := 0; i+len(sub) <= len(s); i++ {
-		if s[i:i+len(sub)] == sub {
-			return true
-		}
+	if off > len(header) {
+		return sect
 	}
-	return false
+	ls := off
+	for ls > 0 && header[ls-1] != '\n' {
+		ls--
+	}
+	le := ls
+	for le < len(header) && header[le] != '\n' && header[le] != ':' {
+		le++
+	}
+	return sect + ":" + header[ls:le]
 }
 
 // writeKind describes the bytes of one write of the weight section.
